@@ -176,6 +176,10 @@ func scenarioOf(name string) scenario {
 		return scenario{name, [][]op{{{kind: opUpdated, key: 0, arg: sym("a")}, {kind: opGet, key: 0}}, {{kind: opUpdated, key: 0, arg: sym("b")}, {kind: opGet, key: 0}}}}
 	case "updatedwith_lost_update":
 		return scenario{name, [][]op{{{kind: opUpdatedWith, key: 0, arg: sym("a")}}, {{kind: opUpdatedWith, key: 0, arg: sym("b")}, {kind: opGet, key: 0}}}}
+	case "updatedwith_vs_cia":
+		return scenario{name, [][]op{{{kind: opUpdatedWith, key: 0, arg: sym("a")}}, {{kind: opCIA, key: 0, arg: sym("b")}, {kind: opGet, key: 0}}}}
+	case "updatedwith_vs_updated":
+		return scenario{name, [][]op{{{kind: opUpdatedWith, key: 0, arg: sym("a")}, {kind: opGet, key: 0}}, {{kind: opUpdated, key: 0, arg: sym("b")}}}}
 	case "cia_vs_removed":
 		return scenario{name, [][]op{{{kind: opCIA, key: 0, arg: sym("a")}, {kind: opGet, key: 0}}, {{kind: opRemoved, key: 0}, {kind: opSize}}}}
 	case "writer_vs_iterator":
@@ -247,8 +251,13 @@ func VH_c19_cia_vs_cia_prefilled()    { drive("cia_vs_cia", true) }
 func VH_c19_cia_vs_cia_get()          { drive("cia_vs_cia_get", false) }
 func VH_c19_updated_get()             { drive("updated_get", false) }
 func VH_c19_updatedwith_lost_update() { drive("updatedwith_lost_update", true) }
-func VH_c19_cia_vs_removed()          { drive("cia_vs_removed", true) }
-func VH_c19_writer_vs_iterator()      { drive("writer_vs_iterator", false) }
-func VH_c19_computeif_vs_updated()    { drive("computeif_vs_updated", true) }
-func VH_c19_two_keys()                { drive("two_keys", false) }
-func VH_c19_removed_both_vs_readers() { drive("removed_both_vs_readers", true) }
+
+// the same race on a key that is ABSENT when the calls start (the remap sees None and inserts)
+func VH_c19_updatedwith_absent_key()        { drive("updatedwith_lost_update", false) }
+func VH_c19_updatedwith_vs_cia_absent()     { drive("updatedwith_vs_cia", false) }
+func VH_c19_updatedwith_vs_updated_absent() { drive("updatedwith_vs_updated", false) }
+func VH_c19_cia_vs_removed()                { drive("cia_vs_removed", true) }
+func VH_c19_writer_vs_iterator()            { drive("writer_vs_iterator", false) }
+func VH_c19_computeif_vs_updated()          { drive("computeif_vs_updated", true) }
+func VH_c19_two_keys()                      { drive("two_keys", false) }
+func VH_c19_removed_both_vs_readers()       { drive("removed_both_vs_readers", true) }
